@@ -171,24 +171,36 @@ def run_unit(repo, unit, builddir, tier):
     out = {'unit': name, 'backend': 'verus', 'carries': unit.get('carries', ''), 'bounded': False}
     try:
         sp = splice.build(repo, tpath, canary=False)
-        spc = splice.build(repo, tpath, canary=True)
+        npts = sp.canary_points
+        canaries = [splice.build(repo, tpath, canary=k) for k in range(npts)]
     except splice.AnchorLost as e:
         out.update(status='undecided', reason='anchor-lost: %s' % e)
         return out
-    if spc.canary_points == 0:
+    if npts == 0:
         out.update(status='undecided', reason='template has no role=main function for the canary')
         return out
     fname = name.replace('-', '_').lower()
     main_path = os.path.join(builddir, fname + '.rs')
-    can_path = os.path.join(builddir, fname + '_canary.rs')
     open(main_path, 'w').write(sp.text)
-    open(can_path, 'w').write(spc.text)
+    can_paths = []
+    for k, c in enumerate(canaries):
+        cp = os.path.join(builddir, fname + '_canary%d.rs' % k)
+        open(cp, 'w').write(c.text)
+        can_paths.append(cp)
     timeout = int(unit.get('timeout_s', 600))
     from concurrent.futures import ThreadPoolExecutor
-    with ThreadPoolExecutor(2) as ex:
+    with ThreadPoolExecutor(4) as ex:
         f1 = ex.submit(run_file, main_path, timeout)
-        f2 = ex.submit(run_file, can_path, timeout)
-        r, rc = f1.result(), f2.result()
+        fcs = [ex.submit(run_file, cp, timeout) for cp in can_paths]
+        r = f1.result()
+        rcs = [f.result() for f in fcs]
+    # one canary file per main function: `ensures false` on that function alone must be refuted
+    bad = [k for k, rc_ in enumerate(rcs) if rc_.get('status') != 'failed']
+    rc = {'status': 'failed' if not bad else 'not-refuted', 'errors': sum(x.get('errors', 0) for x in rcs), 'bad': bad}
+
+    class _S:  # keeps the later code unchanged
+        canary_points = npts
+    spc = _S()
     out['checker_cmd'] = 'verus %s --output-json --time' % os.path.relpath(main_path, '/verif')
     out['functions'] = [f for f in sp.functions if f['role'] in ('main', 'helper')]
     out['env_items'] = [f for f in sp.functions if f['role'] in ('item', 'fields')]
@@ -233,9 +245,9 @@ def run_unit(repo, unit, builddir, tier):
         out['status'] = 'undecided'
         out['reason'] = 'zero obligations generated'
         return out
-    if rc.get('status') != 'failed' or rc.get('errors', 0) < spc.canary_points:
+    if rc.get('status') != 'failed':
         out['status'] = 'undecided'
-        out['reason'] = 'canary (ensures false on %d functions) did not fail everywhere: status=%s errors=%s — assumptions may be contradictory' % (
-            spc.canary_points, rc.get('status'), rc.get('errors'))
+        out['reason'] = 'canary (ensures false) was not refuted for main function(s) #%s of %d — assumptions may be contradictory' % (
+            rc.get('bad'), spc.canary_points)
         return out
     return out
